@@ -25,10 +25,12 @@ import xgi  # noqa: E402
 
 V = []
 N = [0]
+CASES = set()
 
 
 def check(cond, what, net, detail=""):
     N[0] += 1
+    CASES.add((what.split(" (")[0], str(net)[:200]))
     if not cond and len(V) < 200:
         V.append({"what": what, "net": str(net)[:160], "detail": str(detail)[:300]})
 
@@ -942,7 +944,7 @@ def main():
     with warnings.catch_warnings():
         warnings.simplefilter("ignore")
         bound = PROPS[PROP]()
-    json.dump({"property": PROP, "checks": N[0], "violations": V, "bound": bound}, sys.stdout)
+    json.dump({"property": PROP, "checks": N[0], "distinct": len(CASES), "violations": V, "bound": bound}, sys.stdout)
 
 
 if __name__ == "__main__":
